@@ -420,3 +420,71 @@ def gen_C16(rng, count, tier):
                 sep = pick(rng, [b"-", b"-", b"-", b"--", b" - ", b"", b","])
                 toks.append("s:%s:%d" % (hx(pad1 + a + sep + c + pad2), pick(rng, [-1, 0, 1, 10, 500, 1000, 2**31, 2**40, -5])))
         yield ("range", " ".join(toks))
+
+
+# ------------------------------------------------------------------------------------ C05 / C06
+
+def hx16(s):
+    return s.encode("utf-16-be").hex() if s else "-"
+
+SUBPATS = ["^api/", "^a/", "^([a-z]+)/", "^v(\\d+)/", "^static", "^", "^x", "x/", "^a", "^api", "^(a|ab)/?", "^[^/]*/"]
+REDPATS = ["^$", "^r/(.*)$", "^old/(.*)/(.*)$", "^(\\d+)$", "^go$", "^r/", "(b)(c)?", "^never-matches-\\d{9}$", "^(.*)\\.php$"]
+TEMPLATES = ["/new/%1", "/n/%1/%2", "/%2/%1", "/fixed", "/%1%1", "/p%", "http://h/%1", "/%L1", "/%1/%3", "/a b", "/%%1"]
+RSEGS = ["api", "a", "r", "old", "123", "abc", "x", "v2", "static", "go", "%0d%0aInjected:%20x", "%25", "%252", "%2f", "a%20b", "%C3%A9", "", "b", "bc",
+         "i.php", "ab", "%251"]
+
+
+def gen_tree(rng, accept_p):
+    toks = []
+    pats = SUBPATS + REDPATS
+    used = {}
+    def pat(p):
+        if p not in used:
+            used[p] = len(used)
+            toks.append("pat:%d:%s" % (used[p], hx16(p)))
+        return used[p]
+    nid = [0]
+    mwid = [0]
+    def node(parent, patidx, depth):
+        me = nid[0]
+        nid[0] += 1
+        toks.append("node:%d:%d:%d:%d" % (me, parent, patidx, 1 if rng.random() < 0.3 else 0))
+        for _ in range(rng.choice([0, 0, 1, 2])):
+            toks.append("mw:%d:%d:%d" % (me, mwid[0], 1 if rng.random() < accept_p else 0))
+            mwid[0] += 1
+        for _ in range(rng.choice([0, 0, 1, 2])):
+            toks.append("redir:%d:%d:%s" % (me, pat(pick(rng, REDPATS)), hx16(pick(rng, TEMPLATES))))
+        if depth < 3:
+            for _ in range(rng.choice([0, 1, 1, 2, 3]) if depth < 2 else rng.choice([0, 0, 1])):
+                pi = pat(pick(rng, SUBPATS))
+                node(me, pi, depth + 1)
+    node(-1, 0, 0)
+    return toks
+
+
+def gen_route(rng, count, accept_p):
+    for i in range(count):
+        toks = gen_tree(rng, accept_p)
+        segs = [pick(rng, RSEGS) for _ in range(rng.randrange(0, 5))]
+        t = "/" + "/".join(segs)
+        if rng.random() < 0.45:
+            # aimed at the redirect patterns, behind 0-2 sub-handler prefixes
+            pre = "".join(pick(rng, ["api/", "a/", "v2/", "abc/", "x/", "static", ""]) for _ in range(rng.randrange(0, 3)))
+            s1, s2 = pick(rng, RSEGS), pick(rng, RSEGS)
+            t = "/" + pre + pick(rng, ["r/" + s1, "old/" + s1 + "/" + s2, "123", "go", s1 + ".php", "", "r/" + s1 + "/" + s2, "xbc"])
+        if rng.random() < 0.2:
+            t += "?q=1"
+        if rng.random() < 0.05:
+            t = pick(rng, ["/", "", "*", "//", "/a//b"])
+        toks.append("req:" + hx(t.encode()))
+        if rng.random() < 0.04:
+            toks.append("noroot")
+        yield ("route", " ".join(toks))
+
+
+def gen_C05(rng, count, tier):
+    return gen_route(rng, count, 0.93)
+
+
+def gen_C06(rng, count, tier):
+    return gen_route(rng, count, 0.6)
